@@ -39,6 +39,7 @@ import random
 from sim import aioloop as A
 from sim import simfs as F
 from sim import threads as T
+from sim.envs import clear_process_caches
 from sim.core import Outcome, digest, exc_key, scrub
 from sim.tape import Tape, run_seed
 
@@ -138,7 +139,8 @@ def _render_key(fn):
 
 
 def reference(cfg: dict, src: str):
-    key = (cfg_key(cfg), src)
+    # keyed by digest, not by the string: the harness must not keep old source strings alive
+    key = (cfg_key(cfg), digest(src))
     r = _REF.get(key)
     if r is None:
         import jinja2
@@ -179,6 +181,7 @@ class Proc:
 
 def run(tape: Tape) -> Outcome:
     setup()
+    clear_process_caches()  # a run must not depend on the runs before it in this worker
     import jinja2
     from jinja2.bccache import FileSystemBytecodeCache, MemcachedBytecodeCache, bc_magic
 
@@ -198,6 +201,7 @@ def run(tape: Tape) -> Outcome:
     names = ("a", "b")[: 1 + tape.draw(2)]
     variant = {n: tape.draw(4) for n in names}
     ignore_mc_errors = bool(tape.draw(2))
+    fresh_strings = bool(tape.draw(2))
     write_buffer = (8192, 16, 256)[tape.draw(3)]
     nrounds = 3 + tape.draw(8)
     rounds = []
@@ -210,7 +214,7 @@ def run(tape: Tape) -> Outcome:
             p2 = (p1 + 1 + tape.draw(nproc - 1)) % nproc
             rounds.append(("load2", p1, tape.pick(names), p2, tape.pick(names)))
         elif k == 2:
-            rounds.append(("modify", tape.pick(names)))
+            rounds.append(("modify", tape.pick(names), tape.weighted([3, 1, 1, 1])))
         elif k == 3:
             rounds.append(("clear", tape.draw(nproc)))
         elif k == 4:
@@ -227,9 +231,28 @@ def run(tape: Tape) -> Outcome:
     version = {n: 0 for n in names}
     older_entries: dict[str, bytes] = {}
 
-    def bump(n):
-        version[n] += 1
-        store[n] = source(n, version[n] + 10 * names.index(n), variant[n])
+    subtle_state = {n: 0 for n in names}
+
+    def bump(n, subtle=0):
+        """New source for n.  subtle=0: the version number changes (same length).  subtle>0: an edit a careless
+        checksum could miss: only the trailing newline, or one line break replaced by another separator."""
+        if subtle:
+            subtle_state[n] += subtle
+        else:
+            version[n] += 1
+        base_src = source(n, version[n] + 10 * names.index(n), variant[n])
+        k = subtle_state[n] % 6
+        if k == 1:
+            base_src = base_src.rstrip("\n")
+        elif k == 2:
+            base_src = base_src + "\n"
+        elif k == 3:
+            base_src = base_src.replace("\n", "\x0c", 1)
+        elif k == 4:
+            base_src = base_src.replace("\n", "\u2028", 1)
+        elif k == 5:
+            base_src = base_src.replace("\n", "\r\n", 1)
+        store[n] = base_src
 
     for n in names:
         bump(n)
@@ -254,7 +277,12 @@ def run(tape: Tape) -> Outcome:
             bcc = FileSystemBytecodeCache(CACHE_DIR)
         else:
             bcc = MemcachedBytecodeCache(mc, ignore_memcache_errors=ignore_mc_errors)
-        p.env = make_env(p.cfg, jinja2.DictLoader(store), bcc)
+        if fresh_strings:
+            # like a loader that reads its source anew on every load: a fresh string object each time
+            loader = jinja2.FunctionLoader(lambda name: (store[name] + " ")[:-1] if name in store else None)
+        else:
+            loader = jinja2.DictLoader(store)
+        p.env = make_env(p.cfg, loader, bcc)
 
     for p in procs:
         start(p)
@@ -489,8 +517,8 @@ def run(tape: Tape) -> Outcome:
                 cur = entry_bytes(n)
                 if cur:
                     older_entries[n] = cur
-                bump(n)
-                steps_dec.append(["modify", n, version[n]])
+                bump(n, rd[2])
+                steps_dec.append(["modify", n, version[n], "subtle-edit" if rd[2] else "new-version"])
             elif rd[0] == "clear":
                 p = procs[rd[1]]
                 if p.pid in fs.dead:
@@ -537,6 +565,7 @@ def run(tape: Tape) -> Outcome:
     out.count("syscall_events", fs.nevents)
     out.decoded = {
         "backend": backend, "mixed_config": mixed, "configs": cfgs, "write_buffer": write_buffer,
+        "loader": "FunctionLoader (fresh source string per load)" if fresh_strings else "DictLoader",
         "ignore_memcache_errors": ignore_mc_errors if backend == "memcached" else None,
         "rounds": [list(r) for r in rounds], "fault_plan(kind,a,b)": [list(f_) for f_ in faults],
         "fired": [list(map(str, f_)) for f_ in fs.fired + mc.fired], "steps": steps_dec,
